@@ -77,7 +77,7 @@ pub enum EncErr {
     Other,
 }
 
-fn enc_class<E>(e: &encode::Error<E>) -> EncErr {
+pub fn enc_class<E>(e: &encode::Error<E>) -> EncErr {
     if e.is_write() {
         EncErr::Write
     } else if e.is_message() {
@@ -535,6 +535,20 @@ impl Ty for std::ffi::CString {
     }
     fn small() -> Vec<Self> {
         vec![std::ffi::CString::new("").unwrap(), std::ffi::CString::new("abc").unwrap(), std::ffi::CString::new(vec![b'x'; 23]).unwrap(), std::ffi::CString::new(vec![0xffu8; 255]).unwrap()]
+    }
+}
+impl ToModel for std::borrow::Cow<'static, ByteSlice> {
+    fn to_model(&self) -> Item {
+        Item::bytes(self)
+    }
+}
+impl Ty for std::borrow::Cow<'static, ByteSlice> {
+    fn shape() -> Shape {
+        Shape::Bytes
+    }
+    fn small() -> Vec<Self> {
+        // (borrowed only: the owned form is whatever `ToOwned for ByteSlice` says, which is part of the subject)
+        small_bytes().into_iter().chain([vec![0x18u8, 0xff]]).map(|b| std::borrow::Cow::Borrowed(<&ByteSlice>::from(&*Vec::leak(b)))).collect()
     }
 }
 impl Ty for ByteVec {
@@ -1557,6 +1571,7 @@ pub fn type_table() -> Vec<TypeEntry> {
     entry!(v, "Box<str>", Box<str>);
     entry!(v, "Cow<str>", std::borrow::Cow<'static, str>);
     entry!(v, "Cow<[u16]>", std::borrow::Cow<'static, [u16]>, 2);
+    entry!(v, "Cow<ByteSlice>", std::borrow::Cow<'static, ByteSlice>);
     entry!(v, "Cow<CStr>", std::borrow::Cow<'static, std::ffi::CStr>);
     entry!(v, "Cow<Path>", std::borrow::Cow<'static, std::path::Path>);
     entry!(v, "CString", std::ffi::CString);
@@ -1601,6 +1616,11 @@ pub fn type_table() -> Vec<TypeEntry> {
     entry!(v, "tuple10", (bool, u8, i8, bool, u8, i8, bool, u8, i8, bool));
     entry!(v, "tuple11", (bool, u8, i8, bool, u8, i8, bool, u8, i8, bool, u8));
     entry!(v, "tuple12", (bool, u8, i8, bool, u8, i8, bool, u8, i8, bool, u8, i8));
+    // the remaining rows of the tuple impl tables (arity 13 - 16), neighbouring components of different types
+    entry!(v, "tuple13", (u8, bool, i8, u8, bool, i8, u8, bool, i8, u8, bool, i8, u8));
+    entry!(v, "tuple14", (u8, bool, i8, u8, bool, i8, u8, bool, i8, u8, bool, i8, u8, bool));
+    entry!(v, "tuple15", (u8, bool, i8, u8, bool, i8, u8, bool, i8, u8, bool, i8, u8, bool, i8));
+    entry!(v, "tuple16", (u8, bool, i8, u8, bool, i8, u8, bool, i8, u8, bool, i8, u8, bool, i8, u8));
     entry!(v, "tuple13", (bool, u8, i8, bool, u8, i8, bool, u8, i8, bool, u8, i8, bool));
     entry!(v, "tuple14", (bool, u8, i8, bool, u8, i8, bool, u8, i8, bool, u8, i8, bool, u8));
     entry!(v, "tuple15", (bool, u8, i8, bool, u8, i8, bool, u8, i8, bool, u8, i8, bool, u8, i8));
